@@ -28,10 +28,10 @@ func init() {
 
 // histMonitor remembers what has been observed along a history.
 type histMonitor struct {
-	tagFirst map[string]string // repo/tag -> digest|bytes at first successful observation
-	ever     map[string]string // kind/repo/digest -> bytes once retrievable
-	neverLose bool             // Immutable wrapper: nothing ever retrievable may disappear
-	closure   bool             // immutable-tags: closure of every tag stays retrievable
+	tagFirst  map[string]string // repo/tag -> digest|bytes at first successful observation
+	ever      map[string]string // kind/repo/digest -> bytes once retrievable
+	neverLose bool              // Immutable wrapper: nothing ever retrievable may disappear
+	closure   bool              // immutable-tags: closure of every tag stays retrievable
 }
 
 func newHistMonitor(neverLose, closure bool) *histMonitor {
